@@ -3,9 +3,83 @@
    action of the definition it names produces on the inputs it names.  Trust does not mention the current
    repository, so it survives edits, reverts, removed targets and rm -rf plz-out; it is preserved by every
    build step provided the path-hash stream is injective on the trees that occur (`good`, hypothesis
-   good_inj = path_inj) and the rule key identifies the definition (hypothesis U_inj = the C08 assumption). *)
-From PlzV Require Import Base.Harness Base.StrFacts Model.Engine Proof.Engine Proof.C03.
+   good_inj = path_inj) and the rule key identifies the definition (hypothesis U_inj = the C08 assumption).
+   Tools: the source key names the trees of the tool outputs but not their paths (Engine.anon_ins), so "the inputs a
+   record names" are determined up to the paths of the tool outputs only.  For a command that does not read those names
+   (Model.C01.tool_blind) that is enough; for one that does (ToolNames) the record is justified relative to `Obs`, the
+   tool output paths observed at the turns of the history under (rule key, source key) - functional by hypothesis
+   (Obs_fun = the executable classifier tool_rename_free). *)
+From PlzV Require Import Base.Harness Base.StrFacts Model.Engine Model.C01 Proof.Engine Proof.C03.
 From Coq Require Import Lia.
+
+(* ------------------------------------------------------------------------------------------ *)
+(* the two halves of a source key *)
+
+(* the inputs of a build: a = $SRCS (path, tree), b = the outputs of the tools (path, tree) *)
+Definition skey2 (a b : list (path * node)) : skey := key_of a ++ key_of (anon_ins b).
+Definition named (a : list (path * node)) : Prop := Forall (fun pn => fst pn <> nopath) a.
+(* what the command reads: a target with output_dirs (command OutDir) never sees its tools *)
+Definition cmd_ins (t : target) (a b : list (path * node)) : list (path * node) :=
+  if could_modify t then a else a ++ tool_ins b.
+
+Lemma key_split a : forall a' b b', named a -> named a' -> skey2 a b = skey2 a' b' ->
+  key_of a = key_of a' /\ key_of (anon_ins b) = key_of (anon_ins b').
+Proof.
+  unfold skey2. induction a as [|[p n] a IH]; intros [|[p' n'] a'] b b' Hn Hn' H.
+  - split; [reflexivity|exact H].
+  - exfalso. destruct b as [|[q m] b]; [discriminate H|].
+    cbn [key_of anon_ins map app fst snd] in H. injection H as Hp _ _. inversion Hn' as [|? ? Hx _]; subst.
+    cbn [fst] in Hx. congruence.
+  - exfalso. destruct b' as [|[q m] b']; [discriminate H|].
+    cbn [key_of anon_ins map app fst snd] in H. injection H as Hp _ _. inversion Hn as [|? ? Hx _]; subst.
+    cbn [fst] in Hx. congruence.
+  - cbn [key_of map app fst snd] in H. injection H as Hp Hs Hr. inversion Hn; inversion Hn'; subst.
+    destruct (IH a' b b') as [E1 E2]; try assumption.
+    split; [|exact E2]. cbn [key_of map fst snd]. f_equal; [congruence|exact E1].
+Qed.
+
+Lemma split_fst_snd {A B} (l : list (A * B)) : forall l', map fst l = map fst l' -> map snd l = map snd l' -> l = l'.
+Proof.
+  induction l as [|[x y] l IH]; intros [|[x' y'] l'] H1 H2; try discriminate; [reflexivity|].
+  cbn [map fst snd] in H1, H2. injection H1 as -> H1. injection H2 as -> H2. f_equal. apply IH; assumption.
+Qed.
+
+Lemma tmp_ins_app x y : tmp_ins (x ++ y) = tmp_ins x ++ tmp_ins y.
+Proof. unfold tmp_ins. apply map_app. Qed.
+Lemma tmp_ins_snd x : map snd (tmp_ins x) = map snd x.
+Proof. unfold tmp_ins. rewrite map_map. reflexivity. Qed.
+Lemma tool_ins_snd b : map snd (tool_ins b) = map snd b.
+Proof. unfold tool_ins. rewrite map_map. reflexivity. Qed.
+Lemma cmd_ins_snd t a b : map snd (cmd_ins t a b) = if could_modify t then map snd a else map snd a ++ map snd b.
+Proof. unfold cmd_ins. destruct (could_modify t); [reflexivity|]. rewrite map_app, tool_ins_snd. reflexivity. Qed.
+
+Lemma filter_tool_ins b : filter is_tool_in (tmp_ins (tool_ins b)) = tmp_ins (tool_ins b).
+Proof. unfold tmp_ins, tool_ins. induction b as [|pn b IH]; [reflexivity|]. simpl in *. rewrite IH. reflexivity. Qed.
+Lemma src_ins_tool_ins b : src_ins (tmp_ins (tool_ins b)) = [].
+Proof. unfold src_ins, tmp_ins, tool_ins. induction b as [|pn b IH]; [reflexivity|]. simpl in *. exact IH. Qed.
+Lemma src_ins_app x y : src_ins (x ++ y) = src_ins x ++ src_ins y.
+Proof. unfold src_ins. apply filter_app. Qed.
+
+Lemma all_files_snd l : forall l', map snd l = map snd l' -> all_files l = all_files l'.
+Proof.
+  induction l as [|[k n] l IH]; intros [|[k' n'] l'] H; try discriminate; [reflexivity|].
+  cbn [map snd] in H. injection H as -> H. cbn [all_files]. destruct n'; [|reflexivity]. rewrite (IH l' H). reflexivity.
+Qed.
+
+(* a command that does not read the names of its tools' outputs is a function of $SRCS and the TREES of the tool outputs *)
+Lemma blind_result t a b b' : tool_blind t = true -> map snd b = map snd b' ->
+  result t (tmp_ins (cmd_ins t a b)) = result t (tmp_ins (cmd_ins t a b')).
+Proof.
+  intros Hb Hs. unfold result, cmd_ins. destruct (could_modify t) eqn:Ecm; [reflexivity|].
+  rewrite !tmp_ins_app.
+  assert (Hsrc : forall b0, src_ins (tmp_ins a ++ tmp_ins (tool_ins b0)) = src_ins (tmp_ins a))
+    by (intros b0; rewrite src_ins_app, src_ins_tool_ins, app_nil_r; reflexivity).
+  assert (Htl : all_files (filter is_tool_in (tmp_ins a ++ tmp_ins (tool_ins b)) ++ src_ins (tmp_ins a))
+                = all_files (filter is_tool_in (tmp_ins a ++ tmp_ins (tool_ins b')) ++ src_ins (tmp_ins a))).
+  { apply all_files_snd. rewrite !filter_app, !filter_tool_ins, !map_app, !tmp_ins_snd, !tool_ins_snd, Hs. reflexivity. }
+  unfold tool_blind in Hb. destruct (t_kind t) as [c| |content]; cbn [act]; [|reflexivity|reflexivity].
+  destruct c; try discriminate Hb; rewrite ?Hsrc, ?Htl; reflexivity.
+Qed.
 
 Lemma join_inj pkg a b : join pkg a = join pkg b -> a = b.
 Proof.
@@ -63,13 +137,22 @@ Section Trust.
   Hypothesis good_file : forall c, good (File false c).
   Hypothesis act_good : forall t ins news, U t -> Forall good (map snd ins) ->
     result t ins = Some news -> Forall good (map snd news).
+  (* the paths of the tool outputs observed under (rule key, source key) at the turns of the targets that read them *)
+  Variable Obs : str -> skey -> list path -> Prop.
+  Hypothesis Obs_fun : forall dk sk tp tp', Obs dk sk tp -> Obs dk sk tp' -> tp = tp'.
 
   (* the outputs a record speaks about: for a target with output_dirs those folded into its post-build rule hash *)
   Definition rec_outs (t : target) (po : list str) : list str := if could_modify t then po else outputs t.
 
+  (* the inputs (a, b) a source key can stand for: trees the hash is injective on, sources under real paths, and - when the
+     command reads the names of the tool outputs - the tool output paths observed under this key *)
+  Definition stands_for (t : target) (sk : skey) (a b : list (path * node)) : Prop :=
+    skey2 a b = sk /\ Forall good (map snd a) /\ Forall good (map snd b) /\ named a
+    /\ (tool_blind t = false -> Obs (t_defkey t) sk (map fst b)).
+
   Definition justified (t : target) (sk : skey) (po : list str) (o : str) (n : node) : Prop :=
-    forall ins : list (path * node), key_of ins = sk -> Forall good (map snd ins) ->
-    exists news, result t (tmp_ins ins) = Some news /\ alookup o news = Some n
+    forall a b : list (path * node), stands_for t sk a b ->
+    exists news, result t (tmp_ins (cmd_ins t a b)) = Some news /\ alookup o news = Some n
                  /\ (could_modify t = true -> po = map fst news).
 
   Record Trust (st : store) : Prop := {
@@ -77,8 +160,8 @@ Section Trust.
     tr_rec : forall rel e dk po sk, s_outs st rel = Some e -> e_rec e = Some ((dk, po), sk) ->
              forall t o, U t -> t_defkey t = dk -> In o (rec_outs t po) -> out_rel t o = rel -> justified t sk po o (e_node e);
     tr_cache : forall l dk po sk cached, s_cache st l ((dk, po), sk) = Some cached ->
-               forall t ins, U t -> t_label t = l -> t_defkey t = dk -> key_of ins = sk -> Forall good (map snd ins) ->
-               act (t_kind t) (outputs t) (tmp_ins ins) = Some cached
+               forall t a b, U t -> t_label t = l -> t_defkey t = dk -> stands_for t sk a b ->
+               act (t_kind t) (outputs t) (tmp_ins (a ++ tool_ins b)) = Some cached
   }.
 
   Lemma trust_empty : Trust empty_store.
@@ -94,6 +177,28 @@ Section Trust.
     cbn [key_of map fst snd] in H. injection H as Hp Hn Hrest.
     cbn [map snd] in Ha, Hb. inversion Ha; inversion Hb; subst.
     f_equal; [f_equal; apply good_inj; assumption|apply IH; assumption].
+  Qed.
+
+  Lemma anon_inj (b : list (path * node)) : forall b', key_of (anon_ins b) = key_of (anon_ins b') ->
+    Forall good (map snd b) -> Forall good (map snd b') -> map snd b = map snd b'.
+  Proof.
+    induction b as [|[p n] b IH]; intros [|[q m] b'] H Hb Hb'; try discriminate; [reflexivity|].
+    cbn [key_of anon_ins map fst snd] in H. injection H as Hn Hr.
+    cbn [map snd] in *. inversion Hb; inversion Hb'; subst.
+    f_equal; [apply good_inj; assumption|apply IH; assumption].
+  Qed.
+
+  (* two pairs of inputs the same source key stands for give the same result *)
+  Lemma same_result t sk a b a' b' : stands_for t sk a b -> stands_for t sk a' b' ->
+    result t (tmp_ins (cmd_ins t a' b')) = result t (tmp_ins (cmd_ins t a b)).
+  Proof.
+    intros (Hk & Hga & Hgb & Hna & Ho) (Hk' & Hga' & Hgb' & Hna' & Ho').
+    destruct (key_split a' a b' b Hna' Hna) as [Ea Eb]; [congruence|].
+    assert (a' = a) by (apply key_inj; assumption). subst a'.
+    pose proof (anon_inj _ _ Eb Hgb' Hgb) as Es.
+    destruct (tool_blind t) eqn:Etb.
+    - apply blind_result; assumption.
+    - assert (b' = b) by (apply split_fst_snd; [apply (Obs_fun (t_defkey t) sk); auto|exact Es]). subst b'. reflexivity.
   Qed.
 
   (* removing entries keeps Trust *)
@@ -137,29 +242,52 @@ Section Trust.
   Hypothesis W : WF r.
   Hypothesis Hdist : distinct_srcs r = true.
   Hypothesis HU : forall t, In t (r_targets r) -> U t.
-  (* tools are outside the Trust proofs; the trees the filegroups link (files or directories) are good *)
-  Hypothesis Hnt : forall t, In t (r_targets r) -> tool_paths r t = [].
+  (* no source sits on the anonymous path of the tool entries; the trees the filegroups link (files or directories) are good *)
+  Hypothesis Hnamed : forall t, In t (r_targets r) -> Forall (fun p => p <> nopath) (all_paths r t).
   Hypothesis Hsg : forall t f n, In t (r_targets r) -> is_filegroup t = true -> In f (outputs t) ->
     fg_src r (join (t_pkg t) f) = Some n -> good n.
-
-  Lemma source_key_notools t st : In t (r_targets r) ->
-    source_key r st t = option_map key_of (gather (read r st) (iter_sources r t)).
-  Proof.
-    intros Ht. unfold source_key. rewrite (hashed_tool_paths_all r t), (Hnt t Ht). cbn [gather anon_ins map key_of].
-    destruct (gather (read r st) (iter_sources r t)) as [a|]; [|reflexivity]. cbn [option_map]. rewrite app_nil_r. reflexivity.
-  Qed.
-
-  Lemma gather_in_notools t st : In t (r_targets r) -> gather_in r st t = gather (read r st) (all_paths r t).
-  Proof.
-    intros Ht. unfold gather_in. rewrite (Hnt t Ht). cbn [gather tool_ins map].
-    destruct (gather (read r st) (all_paths r t)) as [a|]; [|reflexivity]. rewrite app_nil_r. reflexivity.
-  Qed.
 
   Lemma iter_is_all t : In t (r_targets r) -> iter_sources r t = all_paths r t.
   Proof.
     intros Ht. unfold iter_sources. apply dedup_nodup; [|intros p _ []].
     apply nodup_str_NoDup. unfold distinct_srcs in Hdist. rewrite forallb_forall in Hdist. apply Hdist. exact Ht.
   Qed.
+
+  (* everything a target reads at its turn: its sources and the outputs of its tools *)
+  Definition reads (st : store) (t : target) : option (list (path * node) * list (path * node)) :=
+    match gather (read r st) (all_paths r t), gather (read r st) (tool_paths r t) with
+    | Some a, Some b => Some (a, b)
+    | _, _ => None
+    end.
+
+  Lemma source_key_reads t st : In t (r_targets r) ->
+    source_key r st t = option_map (fun ab => skey2 (fst ab) (snd ab)) (reads st t).
+  Proof.
+    intros Ht. unfold source_key, reads. rewrite (hashed_tool_paths_all r t), (iter_is_all t Ht).
+    destruct (gather (read r st) (all_paths r t)); [|reflexivity]. destruct (gather (read r st) (tool_paths r t)); reflexivity.
+  Qed.
+
+  Lemma gather_in_reads t st : gather_in r st t = option_map (fun ab => fst ab ++ tool_ins (snd ab)) (reads st t).
+  Proof.
+    unfold gather_in, reads.
+    destruct (gather (read r st) (all_paths r t)); [|reflexivity]. destruct (gather (read r st) (tool_paths r t)); reflexivity.
+  Qed.
+
+  Lemma reads_some st t a b : reads st t = Some (a, b) ->
+    gather (read r st) (all_paths r t) = Some a /\ gather (read r st) (tool_paths r t) = Some b.
+  Proof.
+    unfold reads. destruct (gather (read r st) (all_paths r t)); [|discriminate].
+    destruct (gather (read r st) (tool_paths r t)); [|discriminate]. intros H. injection H as -> ->. split; reflexivity.
+  Qed.
+
+  Lemma reads_named st t a b : In t (r_targets r) -> reads st t = Some (a, b) -> named a.
+  Proof.
+    intros Ht Er. destruct (reads_some _ _ _ _ Er) as [Eg _]. apply gather_paths in Eg. pose proof (Hnamed t Ht) as Hn.
+    rewrite <- Eg in Hn. unfold named. rewrite Forall_forall in *. intros pn Hin. apply Hn. apply in_map. exact Hin.
+  Qed.
+
+  Lemma reads_tool_paths st t a b : reads st t = Some (a, b) -> map fst b = tool_paths r t.
+  Proof. intros Er. destruct (reads_some _ _ _ _ Er) as [_ Eb]. eapply gather_paths. exact Eb. Qed.
 
   Lemma outputs_nodup done t todo : r_targets r = done ++ t :: todo -> NoDup (outputs t).
   Proof.
@@ -183,6 +311,26 @@ Section Trust.
     - intros H. injection H as <-. constructor.
     - destruct (read r st p) as [n|] eqn:En; [|discriminate]. destruct (gather (read r st) l) as [ns|]; [|discriminate].
       intros H. injection H as <-. cbn [map snd]. constructor; [eapply read_good; eassumption|apply IH; reflexivity].
+  Qed.
+
+  (* at the turn of a target that reads the names of its tools' outputs, their paths are the observed ones *)
+  Definition turn_ok (st : store) (t : target) : Prop :=
+    tool_blind t = false -> forall sk, source_key r st t = Some sk -> Obs (t_defkey t) sk (tool_paths r t).
+
+  (* what a target reads at its turn is something its source key stands for *)
+  Lemma reads_stands st t a b : In t (r_targets r) -> Trust st -> turn_ok st t -> reads st t = Some (a, b) ->
+    stands_for t (skey2 a b) a b.
+  Proof.
+    intros Ht T Hturn Er. destruct (reads_some _ _ _ _ Er) as [Eg Eb].
+    split; [reflexivity|]. split; [eapply gather_good; eassumption|]. split; [eapply gather_good; eassumption|].
+    split; [eapply reads_named; eassumption|].
+    intros Hb. rewrite (reads_tool_paths _ _ _ _ Er). apply Hturn; [exact Hb|]. rewrite (source_key_reads t st Ht), Er. reflexivity.
+  Qed.
+
+  Lemma stands_good t sk a b : stands_for t sk a b -> Forall good (map snd (tmp_ins (cmd_ins t a b))).
+  Proof.
+    intros (_ & Hga & Hgb & _). rewrite tmp_ins_snd, cmd_ins_snd. destruct (could_modify t); [exact Hga|].
+    apply Forall_app. split; assumption.
   Qed.
 
   Definition AllGood (st : store) : Prop := forall rel e, s_outs st rel = Some e -> good (e_node e).
@@ -267,18 +415,17 @@ Section Trust.
   Qed.
 
   (* the outputs named by `news` now hold exactly the result of the build, under its record: Trust *)
-  Lemma trust_written st st' t ins news po : Trust st -> U t ->
-    Forall good (map snd ins) -> result t (tmp_ins ins) = Some news ->
+  Lemma trust_written st st' t a b news po : Trust st -> U t ->
+    stands_for t (skey2 a b) a b -> result t (tmp_ins (cmd_ins t a b)) = Some news ->
     (forall o n, In (o, n) news -> alookup o news = Some n) ->
     po = (if could_modify t then map fst news else []) ->
     (could_modify t = false -> map fst news = outputs t) ->
-    (forall o n, In (o, n) news -> s_outs st' (out_rel t o) = Some (mkE n (Some ((t_defkey t, po), key_of ins)))) ->
+    (forall o n, In (o, n) news -> s_outs st' (out_rel t o) = Some (mkE n (Some ((t_defkey t, po), skey2 a b)))) ->
     (forall rel, ~ In rel (map (out_rel t) (map fst news)) -> s_outs st' rel = s_outs st rel) ->
     s_cache st' = s_cache st -> Trust st'.
   Proof.
-    intros T Ut Hgood Ea Hfun Hpo Hplain Hexact Hframe Hcache.
-    assert (Hgood' : Forall good (map snd (tmp_ins ins))) by (unfold tmp_ins; rewrite map_map; cbn [snd]; exact Hgood).
-    pose proof (act_good t _ _ Ut Hgood' Ea) as Hng.
+    intros T Ut Hst Ea Hfun Hpo Hplain Hexact Hframe Hcache.
+    pose proof (act_good t _ _ Ut (stands_good _ _ _ _ Hst) Ea) as Hng.
     constructor.
     - intros rel e H. destruct (in_dec (list_eq_dec N.eq_dec) rel (map (out_rel t) (map fst news))) as [Hi|Hni].
       + apply in_map_iff in Hi. destruct Hi as [o [<- Ho]]. apply in_map_iff in Ho. destruct Ho as [[o1 n] [<- Hon]].
@@ -291,7 +438,7 @@ Section Trust.
         cbn [fst] in Hrel2. rewrite <- Hrel2 in H. rewrite (Hexact _ _ Hon) in H. injection H as <-. cbn [e_rec e_node] in *.
         injection Hr as <- <- <-.
         assert (t' = t) by (apply U_inj; assumption). subst t'. rewrite <- Hrel2 in Hrel. apply join_inj in Hrel. subst o'.
-        intros ins' Hk Hg'. assert (ins' = ins) by (apply key_inj; assumption). subst ins'.
+        intros a' b' Hst'. rewrite (same_result t _ a b a' b' Hst Hst').
         exists news. split; [exact Ea|]. split; [apply Hfun; exact Hon|].
         intros Hcm. rewrite Hpo, Hcm. reflexivity.
       + rewrite Hframe in H by exact Hni. eapply (tr_rec _ T); eassumption.
@@ -299,19 +446,20 @@ Section Trust.
   Qed.
 
   (* storeInCache: the entry stored under (label, rule key, source key) is the result of the action *)
-  Lemma trust_set_cache st t ins news : Trust st -> U t -> Forall good (map snd ins) ->
-    act (t_kind t) (outputs t) (tmp_ins ins) = Some news ->
-    Trust (set_cache st (t_label t) ((t_defkey t, []), key_of ins) news).
+  Lemma trust_set_cache st t a b news : Trust st -> U t -> could_modify t = false -> stands_for t (skey2 a b) a b ->
+    act (t_kind t) (outputs t) (tmp_ins (a ++ tool_ins b)) = Some news ->
+    Trust (set_cache st (t_label t) ((t_defkey t, []), skey2 a b) news).
   Proof.
-    intros T Ut Hgood Ea. constructor.
+    intros T Ut Hcm Hst Ea. constructor.
     - intros rel e H. eapply (tr_good _ T). exact H.
     - intros rel e dk po sk H. eapply (tr_rec _ T). exact H.
-    - intros l dk po sk cached H t' ins' Ut' Hl Hdk Hk Hg'. cbn [s_cache set_cache] in H.
+    - intros l dk po sk cached H t' a' b' Ut' Hl Hdk Hst'. cbn [s_cache set_cache] in H.
       destruct (str_eqb_spec l (t_label t)) as [El|_]; cbn [andb] in H.
-      + destruct (rkey_eqb_spec ((dk, po), sk) ((t_defkey t, []), key_of ins)) as [Ek|_].
+      + destruct (rkey_eqb_spec ((dk, po), sk) ((t_defkey t, []), skey2 a b)) as [Ek|_].
         * injection H as <-. injection Ek as Edk _ Esk.
-          assert (t' = t) by (apply U_inj; congruence). subst t'.
-          assert (ins' = ins) by (apply key_inj; congruence). subst ins'. exact Ea.
+          assert (t' = t) by (apply U_inj; congruence). subst t'. subst sk.
+          pose proof (same_result t _ a b a' b' Hst Hst') as Hsame.
+          unfold result, cmd_ins in Hsame. rewrite Hcm in Hsame. rewrite Hsame. exact Ea.
         * eapply (tr_cache _ T); eassumption.
       + eapply (tr_cache _ T); eassumption.
   Qed.
@@ -331,9 +479,9 @@ Section Trust.
   Definition rule_spec (rn rn' : run) (t : target) : Prop :=
     Trust (rn_st rn')
     /\ (forall rel, ~ In rel (claimed r t) -> s_outs (rn_st rn') rel = s_outs (rn_st rn) rel)
-    /\ match gather (read r (rn_st rn)) (all_paths r t) with
-       | Some ins =>
-           match result t (tmp_ins ins) with
+    /\ match reads (rn_st rn) t with
+       | Some (a, b) =>
+           match result t (tmp_ins (cmd_ins t a b)) with
            | Some news => rn_failed rn' = rn_failed rn
                           /\ full_outs (rn_st rn') t = map fst news
                           /\ forall o, In o (map fst news) -> out_of (rn_st rn') t o = alookup o news
@@ -346,27 +494,28 @@ Section Trust.
   Proof. intros H rel Hn. apply H. intros Hi. apply Hn. apply out_rels_claimed. exact Hi. Qed.
 
   Lemma build_rule_spec c rn done t todo : r_targets r = done ++ t :: todo -> is_filegroup t = false -> could_modify t = false ->
-    Trust (rn_st rn) -> rule_spec rn (build_rule c r rn t) t.
+    turn_ok (rn_st rn) t -> Trust (rn_st rn) -> rule_spec rn (build_rule c r rn t) t.
   Proof.
-    intros Hs Hfg Hcm T.
+    intros Hs Hfg Hcm Hturn T.
     assert (Ht : In t (r_targets r)) by (rewrite Hs; apply in_or_app; right; left; reflexivity).
-    pose proof (HU t Ht) as Ut. pose proof (iter_is_all t Ht) as Hiter.
+    pose proof (HU t Ht) as Ut.
     pose proof (outputs_nodup done t todo Hs) as Hnd.
     unfold rule_spec, build_rule.
     assert (Hres : forall ins, result t ins = act (t_kind t) (outputs t) ins) by (intros ins; unfold result; rewrite Hcm; reflexivity).
+    assert (Hci : forall a b, cmd_ins t a b = a ++ tool_ins b) by (intros a b; unfold cmd_ins; rewrite Hcm; reflexivity).
     assert (Hfull : forall st, full_outs st t = outputs t) by (intros st; unfold full_outs; rewrite Hcm; reflexivity).
-    assert (Hsk : source_key r (rn_st rn) t = option_map key_of (gather (read r (rn_st rn)) (all_paths r t)))
-      by (rewrite (source_key_notools t _ Ht), Hiter; reflexivity).
+    pose proof (source_key_reads t (rn_st rn) Ht) as Hsk.
+    pose proof (fun a b => reads_stands (rn_st rn) t a b Ht T Hturn) as Hstand. clear Hturn.
     destruct (needs_build r (rn_st rn) t) eqn:Enb; cbn [negb].
-    - rewrite Hsk. destruct (gather (read r (rn_st rn)) (all_paths r t)) as [ins|] eqn:Eg; cbn [option_map].
+    - rewrite Hsk. destruct (reads (rn_st rn) t) as [[a b]|] eqn:Er; cbn [option_map fst snd].
       2:{ unfold fail_run. cbn [rn_st rn_failed]. split; [apply trust_remove; exact T|].
           split; [apply claimed_frame; intros rel Hn; apply remove_outputs_outs; exact Hn|reflexivity]. }
-      pose proof (gather_good _ _ _ T Eg) as Hgood. rewrite Hres.
-      set (rk := ((t_defkey t, @nil str), key_of ins)).
+      pose proof (Hstand a b eq_refl) as Hst. rewrite Hres, Hci.
+      set (rk := ((t_defkey t, @nil str), skey2 a b)).
       destruct (if c then s_cache (rn_st rn) (t_label t) rk else None) as [cached|] eqn:Ec.
       + (* restored from the cache *)
         assert (Hc : s_cache (rn_st rn) (t_label t) rk = Some cached) by (destruct c; [exact Ec|discriminate]).
-        pose proof (tr_cache _ T _ _ _ _ _ Hc t ins Ut eq_refl eq_refl eq_refl Hgood) as Ea. rewrite Ea.
+        pose proof (tr_cache _ T _ _ _ _ _ Hc t a b Ut eq_refl eq_refl Hst) as Ea. rewrite Ea.
         pose proof (act_names _ _ _ _ Ea) as Hnames. cbn [rn_st rn_failed].
         set (st' := set_meta (fold_left (restore_output rk t) cached (rn_st rn)) (t_label t)).
         assert (Hexact : forall o n, In (o, n) cached -> s_outs st' (out_rel t o) = Some (mkE n (Some rk))).
@@ -374,8 +523,8 @@ Section Trust.
         assert (Hframe : forall rel, ~ In rel (map (out_rel t) (map fst cached)) -> s_outs st' rel = s_outs (rn_st rn) rel).
         { intros rel Hn. subst st'. rewrite set_meta_outs. apply restore_fold_outs. exact Hn. }
         split; [|split; [|split; [|split]]].
-        * eapply (trust_written (rn_st rn) st' t ins cached []); try eassumption.
-          -- rewrite Hres. exact Ea.
+        * apply (trust_written (rn_st rn) st' t a b cached []); try assumption.
+          -- rewrite Hres, Hci. exact Ea.
           -- apply nodup_fun. rewrite Hnames. exact Hnd.
           -- rewrite Hcm. reflexivity.
           -- intros _. exact Hnames.
@@ -386,15 +535,14 @@ Section Trust.
         * intros o Ho. destruct (alookup_names cached o Ho) as [n Hn]. rewrite Hn.
           unfold out_of. rewrite (Hexact o n (alookup_some_in _ _ _ Hn)). reflexivity.
       + (* the command runs *)
-        unfold run_action. rewrite (gather_in_notools t _ Ht), Eg.
-        destruct (act (t_kind t) (outputs t) (tmp_ins ins)) as [news|] eqn:Ea.
+        unfold run_action. rewrite (gather_in_reads t _), Er. cbn [option_map fst snd].
+        destruct (act (t_kind t) (outputs t) (tmp_ins (a ++ tool_ins b))) as [news|] eqn:Ea.
         2:{ cbn [rn_st rn_failed]. split; [apply trust_remove; exact T|].
             split; [apply claimed_frame; intros rel Hn; apply remove_outputs_outs; exact Hn|reflexivity]. }
         cbn [rn_st rn_failed].
         pose proof (act_names _ _ _ _ Ea) as Hnames.
-        assert (Hgood' : Forall good (map snd (tmp_ins ins))) by (unfold tmp_ins; rewrite map_map; cbn [snd]; exact Hgood).
-        assert (Ea' : result t (tmp_ins ins) = Some news) by (rewrite Hres; exact Ea).
-        pose proof (act_good t _ _ Ut Hgood' Ea') as Hng.
+        assert (Ea' : result t (tmp_ins (cmd_ins t a b)) = Some news) by (rewrite Hres, Hci; exact Ea).
+        pose proof (act_good t _ _ Ut (stands_good _ _ _ _ Hst) Ea') as Hng.
         set (st0 := set_meta (rn_st rn) (t_label t)).
         set (st1 := fold_left (move_output rk t) news st0).
         assert (G0 : AllGood st0) by (intros rel e H; eapply (tr_good _ T); exact H).
@@ -404,7 +552,7 @@ Section Trust.
         assert (Hframe : forall rel, ~ In rel (map (out_rel t) (map fst news)) -> s_outs st1 rel = s_outs (rn_st rn) rel).
         { intros rel Hn. subst st1. rewrite move_fold_outs by exact Hn. reflexivity. }
         assert (T1 : Trust st1).
-        { eapply (trust_written (rn_st rn) st1 t ins news []); try eassumption.
+        { apply (trust_written (rn_st rn) st1 t a b news []); try assumption.
           - rewrite Hcm. reflexivity.
           - intros _. exact Hnames.
           - subst st1. rewrite move_fold_cache. reflexivity. }
@@ -426,18 +574,18 @@ Section Trust.
       destruct (common_rec (rn_st rn) (out_rels t)) as [rk|] eqn:Ecr; [|discriminate].
       apply orb_false_elim in Enb. destruct Enb as [Edk Esrc].
       apply negb_false_iff in Edk. apply str_eqb_eq in Edk.
-      rewrite Hsk in Esrc. destruct (gather (read r (rn_st rn)) (all_paths r t)) as [ins|] eqn:Eg; cbn [option_map] in Esrc; [|discriminate].
-      apply negb_false_iff in Esrc. destruct (skey_eqb_spec (snd rk) (key_of ins)) as [Ek|]; [|discriminate].
-      pose proof (gather_good _ _ _ T Eg) as Hgood.
+      rewrite Hsk in Esrc. destruct (reads (rn_st rn) t) as [[a b]|] eqn:Er; cbn [option_map fst snd] in Esrc; [|discriminate].
+      apply negb_false_iff in Esrc. destruct (skey_eqb_spec (snd rk) (skey2 a b)) as [Ek|]; [|discriminate].
+      pose proof (Hstand a b eq_refl) as Hst.
       destruct rk as [[dk po] sk]. unfold rk_def in Edk. cbn [fst snd] in *. subst dk sk.
       assert (Hper : forall o, In o (outputs t) -> exists e, s_outs (rn_st rn) (out_rel t o) = Some e
-                       /\ exists news, result t (tmp_ins ins) = Some news /\ alookup o news = Some (e_node e)).
+                       /\ exists news, result t (tmp_ins (cmd_ins t a b)) = Some news /\ alookup o news = Some (e_node e)).
       { intros o Ho. pose proof (common_rec_each _ _ _ Ecr (out_rel t o)) as Hrec.
         unfold rec_at in Hrec. specialize (Hrec (in_map _ _ _ Ho)).
         destruct (s_outs (rn_st rn) (out_rel t o)) as [e|] eqn:Ee; [|discriminate].
         exists e. split; [reflexivity|].
         assert (Hro : In o (rec_outs t po)) by (unfold rec_outs; rewrite Hcm; exact Ho).
-        destruct (tr_rec _ T _ _ _ _ _ Ee Hrec t o Ut eq_refl Hro eq_refl ins eq_refl Hgood) as (news & E1 & E2 & _).
+        destruct (tr_rec _ T _ _ _ _ _ Ee Hrec t o Ut eq_refl Hro eq_refl a b Hst) as (news & E1 & E2 & _).
         exists news. split; assumption. }
       assert (Hne : exists o, In o (outputs t)).
       { pose proof (out_rels_nonempty t (wf_has r W t Ht) Hfg) as Hne. unfold out_rels in Hne.
@@ -452,15 +600,16 @@ Section Trust.
   (* a target with output_dirs that does not go through stale_flow: built from its declared outputs, or both
      checks pass and Trust says that the outputs named by the metadata are those a build would produce *)
   Lemma build_od_spec rn done t todo : r_targets r = done ++ t :: todo -> is_filegroup t = false -> could_modify t = true ->
-    stale_flow r (rn_st rn) t = false ->
+    stale_flow r (rn_st rn) t = false -> turn_ok (rn_st rn) t ->
     Trust (rn_st rn) -> rule_spec rn (build_rule_od r rn t) t.
   Proof.
-    intros Hs Hfg Hcm Hq T.
+    intros Hs Hfg Hcm Hq Hturn T.
     assert (Ht : In t (r_targets r)) by (rewrite Hs; apply in_or_app; right; left; reflexivity).
-    pose proof (HU t Ht) as Ut. pose proof (iter_is_all t Ht) as Hiter.
+    pose proof (HU t Ht) as Ut.
     unfold rule_spec, build_rule_od.
-    assert (Hsk : source_key r (rn_st rn) t = option_map key_of (gather (read r (rn_st rn)) (all_paths r t)))
-      by (rewrite (source_key_notools t _ Ht), Hiter; reflexivity).
+    pose proof (source_key_reads t (rn_st rn) Ht) as Hsk.
+    pose proof (fun a b => reads_stands (rn_st rn) t a b Ht T Hturn) as Hstand. clear Hturn.
+    assert (Hci : forall a b, cmd_ins t a b = a) by (intros a b; unfold cmd_ins; rewrite Hcm; reflexivity).
     assert (Hfull : forall st, full_outs st t = meta_outs st t) by (intros st; unfold full_outs; rewrite Hcm; reflexivity).
     assert (Hclaim : forall rel, ~ In rel (claimed r t) ->
               ~ In rel (map (out_rel t) (outputs t)) /\ ~ In rel (map (out_rel t) (found_names r t))).
@@ -471,38 +620,36 @@ Section Trust.
       destruct (rebuild_od_frame r rn t (outputs t)) as [Hfr _].
       assert (Hframe : forall rel, ~ In rel (claimed r t) -> s_outs (rn_st (rebuild_od r rn t (outputs t))) rel = s_outs (rn_st rn) rel).
       { intros rel Hn. destruct (Hclaim rel Hn). apply Hfr; assumption. }
-      split; [|split; [exact Hframe|]]; unfold rebuild_od in *; rewrite Hsk in *;
-        destruct (gather (read r (rn_st rn)) (all_paths r t)) as [ins|] eqn:Eg; cbn [option_map] in *.
+      split; [|split; [exact Hframe|]]; clear Hframe Hfr; unfold rebuild_od; rewrite Hsk;
+        destruct (reads (rn_st rn) t) as [[a b]|] eqn:Er; cbn [option_map fst snd].
       2:{ unfold fail_run. cbn [rn_st]. apply trust_remove_outs. exact T. }
       3:{ reflexivity. }
-      + unfold run_od. rewrite Eg. destruct (od_cmd (outputs t) (tmp_ins ins)) as [[found news0]|] eqn:Ec.
+      + destruct (reads_some _ _ _ _ Er) as [Eg _]. pose proof (Hstand a b eq_refl) as Hst.
+        unfold run_od. rewrite Eg. destruct (od_cmd (outputs t) (tmp_ins a)) as [[found news0]|] eqn:Ec.
         2:{ cbn [rn_st]. apply trust_remove_outs. exact T. }
         destruct (collect (found ++ news0) (add_outs (map fst found) (outputs t))) as [moved|] eqn:Eco.
         2:{ cbn [rn_st]. apply trust_remove_outs. apply trust_set_meta_dyn. exact T. }
         cbn [rn_st].
-        pose proof (gather_good _ _ _ T Eg) as Hgood.
-        assert (Ea : result t (tmp_ins ins) = Some moved) by (unfold result; rewrite Hcm, Ec; exact Eco).
-        assert (Hgood' : Forall good (map snd (tmp_ins ins))) by (unfold tmp_ins; rewrite map_map; cbn [snd]; exact Hgood).
-        pose proof (act_good t _ _ Ut Hgood' Ea) as Hng.
+        assert (Ea : result t (tmp_ins (cmd_ins t a b)) = Some moved) by (rewrite Hci; unfold result; rewrite Hcm, Ec; exact Eco).
+        pose proof (act_good t _ _ Ut (stands_good _ _ _ _ Hst) Ea) as Hng.
         pose proof (collect_names _ _ _ Eco) as Hnames.
         pose proof (collect_fun _ _ _ Eco) as Hfun.
         set (st0 := set_meta_dyn (rn_st rn) (t_label t) (map fst found)).
         assert (G0 : AllGood st0) by (intros rel e H; eapply (tr_good _ T); exact H).
-        eapply (trust_written (rn_st rn) _ t ins moved (map fst moved)); try eassumption.
+        apply (trust_written (rn_st rn) _ t a b moved (map fst moved)); try assumption.
         * intros o n Hin. eapply alookup_fun; [exact Hfun|exact Hin].
         * rewrite Hcm. reflexivity.
         * intros E. congruence.
         * rewrite Hnames. apply (move_fold_exact _ t moved (fun o => alookup o (found ++ news0))); assumption.
         * intros rel Hn. rewrite move_fold_outs by exact Hn. reflexivity.
         * rewrite move_fold_cache. reflexivity.
-      + unfold run_od. rewrite Eg. unfold result. rewrite Hcm.
-        destruct (od_cmd (outputs t) (tmp_ins ins)) as [[found news0]|] eqn:Ec; [|reflexivity].
+      + destruct (reads_some _ _ _ _ Er) as [Eg _]. pose proof (Hstand a b eq_refl) as Hst.
+        unfold run_od. rewrite Eg, Hci. unfold result. rewrite Hcm.
+        destruct (od_cmd (outputs t) (tmp_ins a)) as [[found news0]|] eqn:Ec; [|reflexivity].
         destruct (collect (found ++ news0) (add_outs (map fst found) (outputs t))) as [moved|] eqn:Eco; [|reflexivity].
         cbn [rn_st rn_failed].
-        pose proof (gather_good _ _ _ T Eg) as Hgood.
-        assert (Ea : result t (tmp_ins ins) = Some moved) by (unfold result; rewrite Hcm, Ec; exact Eco).
-        assert (Hgood' : Forall good (map snd (tmp_ins ins))) by (unfold tmp_ins; rewrite map_map; cbn [snd]; exact Hgood).
-        pose proof (act_good t _ _ Ut Hgood' Ea) as Hng.
+        assert (Ea : result t (tmp_ins (cmd_ins t a b)) = Some moved) by (rewrite Hci; unfold result; rewrite Hcm, Ec; exact Eco).
+        pose proof (act_good t _ _ Ut (stands_good _ _ _ _ Hst) Ea) as Hng.
         pose proof (collect_names _ _ _ Eco) as Hnames.
         pose proof (collect_fun _ _ _ Eco) as Hfun.
         set (st0 := set_meta_dyn (rn_st rn) (t_label t) (map fst found)).
@@ -521,19 +668,19 @@ Section Trust.
       apply orb_false_elim in Hq. destruct Hq as [Edk Esrc].
       apply negb_false_iff in Edk. apply andb_prop in Edk. destruct Edk as [Edk Epo].
       apply str_eqb_eq in Edk. destruct (strs_eqb_spec (rk_outs rk) (meta_outs (rn_st rn) t)) as [Epo'|]; [|discriminate].
-      rewrite Hsk in Esrc. destruct (gather (read r (rn_st rn)) (all_paths r t)) as [ins|] eqn:Eg; cbn [option_map] in Esrc; [|discriminate].
-      apply negb_false_iff in Esrc. destruct (skey_eqb_spec (snd rk) (key_of ins)) as [Ek|]; [|discriminate].
-      pose proof (gather_good _ _ _ T Eg) as Hgood.
+      rewrite Hsk in Esrc. destruct (reads (rn_st rn) t) as [[a b]|] eqn:Er; cbn [option_map fst snd] in Esrc; [|discriminate].
+      apply negb_false_iff in Esrc. destruct (skey_eqb_spec (snd rk) (skey2 a b)) as [Ek|]; [|discriminate].
+      pose proof (Hstand a b eq_refl) as Hst.
       destruct rk as [[dk po] sk]. unfold rk_def, rk_outs in *. cbn [fst snd] in *. subst dk sk po.
       assert (Hper : forall o, In o (meta_outs (rn_st rn) t) -> exists e, s_outs (rn_st rn) (out_rel t o) = Some e
-                       /\ exists news, result t (tmp_ins ins) = Some news /\ alookup o news = Some (e_node e)
+                       /\ exists news, result t (tmp_ins (cmd_ins t a b)) = Some news /\ alookup o news = Some (e_node e)
                                        /\ meta_outs (rn_st rn) t = map fst news).
       { intros o Ho. pose proof (common_rec_each _ _ _ Ecr (out_rel t o)) as Hrec.
         unfold rec_at in Hrec. specialize (Hrec (in_map _ _ _ Ho)).
         destruct (s_outs (rn_st rn) (out_rel t o)) as [e|] eqn:Ee; [|discriminate].
         exists e. split; [reflexivity|].
         assert (Hro : In o (rec_outs t (meta_outs (rn_st rn) t))) by (unfold rec_outs; rewrite Hcm; exact Ho).
-        destruct (tr_rec _ T _ _ _ _ _ Ee Hrec t o Ut eq_refl Hro eq_refl ins eq_refl Hgood) as (news & E1 & E2 & E3).
+        destruct (tr_rec _ T _ _ _ _ _ Ee Hrec t o Ut eq_refl Hro eq_refl a b Hst) as (news & E1 & E2 & E3).
         exists news. split; [exact E1|]. split; [exact E2|]. apply E3. exact Hcm. }
       assert (Hne : exists o, In o (meta_outs (rn_st rn) t)).
       { pose proof (out_rels_nonempty t (wf_has r W t Ht) Hfg) as Hne. unfold out_rels in Hne.
@@ -627,8 +774,8 @@ Section Trust.
                                      | Some c => c | None => File false [] end)) (outputs t))
       | S _ => None
       end
-    else match gather (read r st) (all_paths r t) with
-         | Some ins => result t (tmp_ins ins)
+    else match reads st t with
+         | Some (a, b) => result t (tmp_ins (cmd_ins t a b))
          | None => None
          end.
   Definition fail_count (t : target) : nat := if is_filegroup t then missing t (outputs t) else 1.
@@ -653,22 +800,23 @@ Section Trust.
   Qed.
 
   (* the outputs of a result lie inside what the target claims *)
-  Lemma result_claimed st t ins news : In t (r_targets r) -> gather (read r st) (all_paths r t) = Some ins ->
-    result t (tmp_ins ins) = Some news -> forall o, In o (map fst news) -> In (out_rel t o) (claimed r t).
+  Lemma result_claimed st t a b news : In t (r_targets r) -> reads st t = Some (a, b) ->
+    result t (tmp_ins (cmd_ins t a b)) = Some news -> forall o, In o (map fst news) -> In (out_rel t o) (claimed r t).
   Proof.
-    intros Ht Eg Ea o Ho. unfold result in Ea. unfold claimed. destruct (could_modify t) eqn:Ecm.
-    - destruct (od_cmd (outputs t) (tmp_ins ins)) as [[found news0]|] eqn:Ec; [|discriminate].
+    intros Ht Er Ea o Ho. destruct (reads_some _ _ _ _ Er) as [Eg _].
+    unfold result, cmd_ins in Ea. unfold claimed. destruct (could_modify t) eqn:Ecm.
+    - destruct (od_cmd (outputs t) (tmp_ins a)) as [[found news0]|] eqn:Ec; [|discriminate].
       apply collect_names in Ea. rewrite Ea in Ho. apply add_outs_In in Ho.
-      pose proof (od_cmd_found _ _ _ _ Ec) as Hf. subst found. rewrite (found_names_spec r st t ins Eg) in Ho.
+      pose proof (od_cmd_found _ _ _ _ Ec) as Hf. subst found. rewrite (found_names_spec r st t a Eg) in Ho.
       apply in_or_app. destruct Ho as [Ho|Ho]; [right|left; unfold out_rels]; apply in_map; exact Ho.
     - apply act_names in Ea. rewrite Ea in Ho. apply in_or_app. left. unfold out_rels. apply in_map. exact Ho.
   Qed.
 
   Lemma build_one_spec c rn done t todo : r_targets r = done ++ t :: todo -> blocked r rn t = false ->
-    stale_flow r (rn_st rn) t = false ->
+    stale_flow r (rn_st rn) t = false -> turn_ok (rn_st rn) t ->
     Trust (rn_st rn) -> step_spec rn (build_one c r rn t) t.
   Proof.
-    intros Hs Hb Hq T. unfold build_one. rewrite Hb. unfold step_spec, outcome, fail_count.
+    intros Hs Hb Hq Hturn T. unfold build_one. rewrite Hb. unfold step_spec, outcome, fail_count.
     pose proof (outputs_nodup done t todo Hs) as Hnd.
     assert (Ht : In t (r_targets r)) by (rewrite Hs; apply in_or_app; right; left; reflexivity).
     destruct (is_filegroup t) eqn:Efg.
@@ -713,8 +861,8 @@ Section Trust.
             2:{ cbn [rn_st]. unfold remove_outputs. rewrite remove_fold_dyn. reflexivity. }
             destruct c; cbn [rn_st]; cbn [s_dyn set_cache]; rewrite move_fold_dyn; apply set_meta_dyn_other; exact Hl. }
       destruct Hspec as [(T' & Hfr & Hspec) Hdyn]. split; [exact T'|]. split; [exact Hfr|]. split; [exact Hdyn|].
-      destruct (gather (read r (rn_st rn)) (all_paths r t)) as [ins|] eqn:Eg; [|exact Hspec].
-      destruct (result t (tmp_ins ins)) as [news|] eqn:Ea; [|exact Hspec].
+      unfold rule_spec in Hspec. destruct (reads (rn_st rn) t) as [[a b]|] eqn:Er; [|exact Hspec].
+      destruct (result t (tmp_ins (cmd_ins t a b))) as [news|] eqn:Ea; [|exact Hspec].
       destruct Hspec as (Hf & Hfull & Ho). split; [exact Hf|]. split; [exact Hfull|].
       split; [eapply result_claimed; eassumption|].
       intros o Hin. split; [apply Ho; exact Hin|].
@@ -740,25 +888,34 @@ Section Trust.
   Qed.
 
   Lemma inputs_from_dep done t todo p : r_targets r = done ++ t :: todo ->
-    In p (all_paths r t) -> fst p = true ->
+    In p (all_reads r t) -> fst p = true ->
     exists l d o, In l (label_srcs (t_srcs t)) /\ In d done /\ t_label d = l /\ In o (outputs d) /\ snd p = out_rel d o.
   Proof.
-    intros Hs Hp Hg. unfold all_paths in Hp. apply in_flat_map in Hp. destruct Hp as [x [Hx Hp]].
-    destruct x as [f|l|l]; cbn [src_paths] in Hp; [| |destruct Hp].
-    - destruct Hp as [<-|[]]. discriminate.
-    - assert (Hl : In l (label_srcs (t_srcs t))) by (apply label_srcs_label; exact Hx).
-      destruct (wf_topo r W done t todo Hs l Hl) as [d [Hd Hf]]. rewrite Hf in Hp.
-      apply in_map_iff in Hp. destruct Hp as [o [<- Ho]]. exists l, d, o. repeat split; auto.
-      eapply find_target_label. exact Hf.
+    intros Hs Hp Hg.
+    assert (Hdep : forall l, In l (label_srcs (t_srcs t)) ->
+              In p (match find_target (r_targets r) l with
+                    | Some d => map (fun o => (true, out_rel d o)) (outputs d) | None => [] end) ->
+              exists l d o, In l (label_srcs (t_srcs t)) /\ In d done /\ t_label d = l /\ In o (outputs d) /\ snd p = out_rel d o).
+    { intros l Hl Hp'. destruct (wf_topo r W done t todo Hs l Hl) as [d [Hd Hf]]. rewrite Hf in Hp'.
+      apply in_map_iff in Hp'. destruct Hp' as [o [<- Ho]]. exists l, d, o. repeat split; auto.
+      eapply find_target_label. exact Hf. }
+    unfold all_reads in Hp. apply in_app_or in Hp. destruct Hp as [Hp|Hp].
+    - unfold all_paths in Hp. apply in_flat_map in Hp. destruct Hp as [x [Hx Hp]].
+      destruct x as [f|l|l]; cbn [src_paths] in Hp; [| |destruct Hp].
+      + destruct Hp as [<-|[]]. discriminate.
+      + apply (Hdep l); [apply label_srcs_label; exact Hx|exact Hp].
+    - unfold tool_paths in Hp. apply in_flat_map in Hp. destruct Hp as [x [Hx Hp]].
+      destruct x as [f|l|l]; try (destruct Hp; fail).
+      apply (Hdep l); [apply label_srcs_tool; exact Hx|exact Hp].
   Qed.
 
-  Lemma outcome_agree done t todo a b : r_targets r = done ++ t :: todo ->
-    rn_failed a = rn_failed b -> blocked r a t = false -> Agree done a b ->
-    outcome (rn_st a) t = outcome (rn_st b) t.
+  (* two runs that agree on the targets built so far read the same inputs - sources and tool outputs - at the next turn *)
+  Lemma reads_agree_ab done t todo a b : r_targets r = done ++ t :: todo ->
+    blocked r a t = false -> Agree done a b -> reads (rn_st a) t = reads (rn_st b) t.
   Proof.
-    intros Hs Hf Hb Hag. unfold outcome. destruct (is_filegroup t); [reflexivity|].
-    assert (Hg : gather (read r (rn_st a)) (all_paths r t) = gather (read r (rn_st b)) (all_paths r t)).
-    { apply gather_ext. intros p Hp. unfold read. destruct (fst p) eqn:Eg; [|reflexivity].
+    intros Hs Hb Hag.
+    assert (Hrd : forall p, In p (all_reads r t) -> read r (rn_st a) p = read r (rn_st b) p).
+    { intros p Hp. unfold read. destruct (fst p) eqn:Eg; [|reflexivity].
       destruct (inputs_from_dep done t todo p Hs Hp Eg) as (l & d & o & Hl & Hd & Hdl & Ho & Hrel).
       assert (Hnf : ~ In (t_label d) (rn_failed a)).
       { unfold blocked in Hb. intros Hi. assert (existsb (fun l => mem l (rn_failed a)
@@ -767,8 +924,35 @@ Section Trust.
         congruence. }
       destruct (Hag d Hd Hnf) as (_ & _ & Hout). destruct (Hout o (outputs_in_full _ _ _ Ho)) as [E _].
       unfold out_of in E. rewrite Hrel. exact E. }
-    rewrite Hg. reflexivity.
+    unfold reads.
+    rewrite (gather_ext (read r (rn_st b)) (read r (rn_st a)) (all_paths r t))
+      by (intros p Hp; apply Hrd; unfold all_reads; apply in_or_app; left; exact Hp).
+    rewrite (gather_ext (read r (rn_st b)) (read r (rn_st a)) (tool_paths r t))
+      by (intros p Hp; apply Hrd; unfold all_reads; apply in_or_app; right; exact Hp).
+    reflexivity.
   Qed.
+
+  Lemma outcome_agree done t todo a b : r_targets r = done ++ t :: todo ->
+    rn_failed a = rn_failed b -> blocked r a t = false -> Agree done a b ->
+    outcome (rn_st a) t = outcome (rn_st b) t.
+  Proof.
+    intros Hs Hf Hb Hag. unfold outcome. destruct (is_filegroup t); [reflexivity|].
+    rewrite (reads_agree_ab done t todo a b Hs Hb Hag). reflexivity.
+  Qed.
+
+  (* the turns of the rest of a build are among the observed ones *)
+  Definition obs_turn (x : turn) : Prop := Obs (fst (fst x)) (snd (fst x)) (snd x).
+
+  Lemma turn_head c rn t todo : (forall x, In x (turns_in c r (t :: todo) rn) -> obs_turn x) ->
+    blocked r rn t = false -> turn_ok (rn_st rn) t.
+  Proof.
+    intros H Hb Htb sk Hsk. apply (H (t_defkey t, sk, tool_paths r t)). cbn [turns_in]. apply in_or_app. left.
+    unfold turn_of. rewrite Htb, Hb, Hsk. left. reflexivity.
+  Qed.
+
+  Lemma turn_tail c rn t todo : (forall x, In x (turns_in c r (t :: todo) rn) -> obs_turn x) ->
+    forall x, In x (turns_in c r todo (build_one c r rn t)) -> obs_turn x.
+  Proof. intros H x Hx. apply H. cbn [turns_in]. apply in_or_app. right. exact Hx. Qed.
 
   Lemma blocked_stale c rn t todo : stale_in c r (t :: todo) rn = false -> blocked r rn t = false -> stale_flow r (rn_st rn) t = false.
   Proof. intros H Hb. destruct (stale_in_cons _ _ _ _ _ H) as [Hq _]. apply Hq. exact Hb. Qed.
@@ -776,26 +960,34 @@ Section Trust.
   Lemma sim ca cb : forall todo done a b, r_targets r = done ++ todo ->
     Trust (rn_st a) -> Trust (rn_st b) -> rn_failed a = rn_failed b -> Agree done a b ->
     stale_in ca r todo a = false -> stale_in cb r todo b = false ->
+    (forall x, In x (turns_in ca r todo a) -> obs_turn x) ->
     let a' := fold_left (build_one ca r) todo a in
     let b' := fold_left (build_one cb r) todo b in
     Trust (rn_st a') /\ Trust (rn_st b') /\ rn_failed a' = rn_failed b' /\ Agree (r_targets r) a' b'.
   Proof.
-    induction todo as [|t todo IH]; intros done a b Hs Ta Tb Hf Hag Hqa Hqb; cbn [fold_left].
+    induction todo as [|t todo IH]; intros done a b Hs Ta Tb Hf Hag Hqa Hqb Hta; cbn [fold_left].
     - cbn zeta. rewrite app_nil_r in Hs. rewrite Hs. auto.
     - cbn zeta.
       pose proof (blocked_stale ca a t todo Hqa) as Hsa. pose proof (blocked_stale cb b t todo Hqb) as Hsb.
       destruct (stale_in_cons _ _ _ _ _ Hqa) as [_ Hqa']. destruct (stale_in_cons _ _ _ _ _ Hqb) as [_ Hqb'].
       assert (Ebb : blocked r b t = blocked r a t) by (unfold blocked; rewrite Hf; reflexivity).
+      assert (Ht : In t (r_targets r)) by (rewrite Hs; apply in_or_app; right; left; reflexivity).
+      pose proof (turn_head ca a t todo Hta) as HokA.
+      (* the other side reads the same inputs, hence has the same source key at this turn *)
+      assert (HokB : blocked r b t = false -> turn_ok (rn_st b) t).
+      { intros Eb Htb sk Hsk. rewrite Ebb in Eb. apply (HokA Eb Htb).
+        rewrite (source_key_reads t _ Ht) in Hsk. rewrite (source_key_reads t _ Ht), (reads_agree_ab done t todo a b Hs Eb Hag). exact Hsk. }
+      pose proof (turn_tail ca a t todo Hta) as Hta'.
       apply (IH (done ++ [t])); clear IH; try assumption.
       + rewrite <- app_assoc. exact Hs.
       + unfold build_one. destruct (blocked r a t) eqn:Eb; [exact Ta|].
-        destruct (build_one_spec ca a done t todo Hs Eb (Hsa eq_refl) Ta) as [T _]. unfold build_one in T. rewrite Eb in T. exact T.
+        destruct (build_one_spec ca a done t todo Hs Eb (Hsa eq_refl) (HokA eq_refl) Ta) as [T _]. unfold build_one in T. rewrite Eb in T. exact T.
       + unfold build_one. destruct (blocked r b t) eqn:Eb; [exact Tb|].
-        destruct (build_one_spec cb b done t todo Hs Eb (Hsb eq_refl) Tb) as [T _]. unfold build_one in T. rewrite Eb in T. exact T.
+        destruct (build_one_spec cb b done t todo Hs Eb (Hsb eq_refl) (HokB eq_refl) Tb) as [T _]. unfold build_one in T. rewrite Eb in T. exact T.
       + destruct (blocked r a t) eqn:Eb.
         * unfold build_one. rewrite Eb, Ebb. cbn. rewrite Hf. reflexivity.
-        * destruct (build_one_spec ca a done t todo Hs Eb (Hsa eq_refl) Ta) as (_ & _ & _ & Sa).
-          destruct (build_one_spec cb b done t todo Hs Ebb (Hsb Ebb) Tb) as (_ & _ & _ & Sb).
+        * destruct (build_one_spec ca a done t todo Hs Eb (Hsa eq_refl) (HokA eq_refl) Ta) as (_ & _ & _ & Sa).
+          destruct (build_one_spec cb b done t todo Hs Ebb (Hsb Ebb) (HokB Ebb) Tb) as (_ & _ & _ & Sb).
           rewrite <- (outcome_agree done t todo a b Hs Hf Eb Hag) in Sb.
           destruct (outcome (rn_st a) t) as [news|].
           -- destruct Sa as [-> _], Sb as [-> _]. exact Hf.
@@ -806,11 +998,11 @@ Section Trust.
           assert (Fa : (forall rel, ~ In rel (claimed r t) -> s_outs (rn_st (build_one ca r a t)) rel = s_outs (rn_st a) rel)
                        /\ s_dyn (rn_st (build_one ca r a t)) (t_label d) = s_dyn (rn_st a) (t_label d)).
           { destruct (blocked r a t) eqn:Eb; [unfold build_one; rewrite Eb; split; reflexivity|].
-            destruct (build_one_spec ca a done t todo Hs Eb (Hsa eq_refl) Ta) as (_ & F1 & F2 & _). split; [exact F1|apply F2; exact Hlab]. }
+            destruct (build_one_spec ca a done t todo Hs Eb (Hsa eq_refl) (HokA eq_refl) Ta) as (_ & F1 & F2 & _). split; [exact F1|apply F2; exact Hlab]. }
           assert (Fb : (forall rel, ~ In rel (claimed r t) -> s_outs (rn_st (build_one cb r b t)) rel = s_outs (rn_st b) rel)
                        /\ s_dyn (rn_st (build_one cb r b t)) (t_label d) = s_dyn (rn_st b) (t_label d)).
           { destruct (blocked r b t) eqn:Eb; [unfold build_one; rewrite Eb; split; reflexivity|].
-            destruct (build_one_spec cb b done t todo Hs Eb (Hsb eq_refl) Tb) as (_ & F1 & F2 & _). split; [exact F1|apply F2; exact Hlab]. }
+            destruct (build_one_spec cb b done t todo Hs Eb (Hsb eq_refl) (HokB eq_refl) Tb) as (_ & F1 & F2 & _). split; [exact F1|apply F2; exact Hlab]. }
           destruct Fa as [Fa Da], Fb as [Fb Db].
           assert (Hnf' : ~ In (t_label d) (rn_failed a)).
           { intros Hi. apply Hnf. destruct (build_one_failed ca r a t) as [n Hn]. rewrite Hn. apply in_or_app. right. exact Hi. }
@@ -825,9 +1017,9 @@ Section Trust.
         * (* the target just built *)
           destruct (blocked r a t) eqn:Eb.
           { exfalso. apply Hnf. unfold build_one. rewrite Eb. left. reflexivity. }
-          destruct (build_one_spec ca a done t todo Hs Eb (Hsa eq_refl) Ta) as (_ & _ & _ & Sa).
+          destruct (build_one_spec ca a done t todo Hs Eb (Hsa eq_refl) (HokA eq_refl) Ta) as (_ & _ & _ & Sa).
           assert (Ebf : blocked r b t = false) by congruence.
-          destruct (build_one_spec cb b done t todo Hs Ebf (Hsb Ebf) Tb) as (_ & _ & _ & Sb).
+          destruct (build_one_spec cb b done t todo Hs Ebf (Hsb Ebf) (HokB Ebf) Tb) as (_ & _ & _ & Sb).
           rewrite <- (outcome_agree done t todo a b Hs Hf Eb Hag) in Sb.
           destruct (outcome (rn_st a) t) as [news|] eqn:Eo.
           -- destruct Sa as (_ & Fa & Ca & Sa), Sb as (_ & Fb & _ & Sb). rewrite Fa, Fb.
@@ -843,15 +1035,16 @@ Section Trust.
 
   Theorem builds_agree ca cb sta stb : Trust sta -> Trust stb ->
     stale_in ca r (r_targets r) (mkRun sta [] []) = false -> stale_in cb r (r_targets r) (mkRun stb [] []) = false ->
+    (forall x, In x (turns_in ca r (r_targets r) (mkRun sta [] [])) -> obs_turn x) ->
     let a := build_all ca r sta in
     let b := build_all cb r stb in
     Trust (rn_st a) /\ rn_failed a = rn_failed b
     /\ forall t, In t (r_targets r) -> ~ In (t_label t) (rn_failed a) ->
        outs_of (rn_st a) t = outs_of (rn_st b) t /\ all_outs_of (rn_st a) t = all_outs_of (rn_st b) t.
   Proof.
-    intros Ta Tb Hqa Hqb. cbn zeta. unfold build_all.
-    destruct (sim ca cb (r_targets r) [] (mkRun sta [] []) (mkRun stb [] []) eq_refl Ta Tb eq_refl) as (T & _ & Hf & Hag); try assumption.
-    { intros d []. }
+    intros Ta Tb Hqa Hqb Hta. cbn zeta. unfold build_all.
+    assert (Hag0 : Agree [] (mkRun sta [] []) (mkRun stb [] [])) by (intros d []).
+    destruct (sim ca cb (r_targets r) [] (mkRun sta [] []) (mkRun stb [] []) eq_refl Ta Tb eq_refl Hag0 Hqa Hqb Hta) as (T & _ & Hf & Hag).
     split; [exact T|]. split; [exact Hf|]. intros t Ht Hnf. destruct (Hag t Ht Hnf) as (Hfu & _ & Hout). split.
     - unfold outs_of. apply map_ext_in. intros o Ho. f_equal. apply (Hout o). apply outputs_in_full. exact Ho.
     - unfold all_outs_of. rewrite <- Hfu. apply map_ext_in. intros o Ho. f_equal. apply (Hout o Ho).
@@ -890,16 +1083,34 @@ End Trust.
 
 (* ------------------------------------------------------------------------------------------ *)
 (* histories *)
-From PlzV Require Import Model.C01.
 
 Lemma restrict_incl r req t : In t (r_targets (restrict r req)) -> In t (r_targets r).
 Proof. unfold restrict. cbn [r_targets]. intros H. apply filter_In in H. apply H. Qed.
 
-Lemma tool_free_paths r : tool_free r = true -> forall t, In t (r_targets r) -> tool_paths r t = [].
+Lemma named_srcs_spec r : named_srcs r = true ->
+  forall t, In t (r_targets r) -> Forall (fun p => p <> nopath) (all_paths r t).
 Proof.
-  unfold tool_free. intros H t Ht. rewrite forallb_forall in H. specialize (H t Ht). unfold tool_paths.
-  induction (t_srcs t) as [|x xs IH]; [reflexivity|]. cbn [forallb] in H. apply andb_prop in H. destruct H as [Hx Hxs].
-  cbn [flat_map]. rewrite (IH Hxs). destruct x; [reflexivity|reflexivity|discriminate].
+  unfold named_srcs. intros H t Ht. rewrite forallb_forall in H. specialize (H t Ht). rewrite forallb_forall in H.
+  apply Forall_forall. intros p Hp Heq. specialize (H p Hp). subst p. apply negb_true_iff in H.
+  destruct (path_eqb_spec nopath nopath); congruence.
+Qed.
+
+Lemma history_turns_app h1 h2 : forall st,
+  history_turns (h1 ++ h2) st = history_turns h1 st ++ history_turns h2 (run_history h1 st).
+Proof.
+  induction h1 as [|s0 h1 IH]; intros st; cbn [app history_turns]; [reflexivity|].
+  rewrite IH, app_assoc. unfold run_history. cbn [fold_left]. reflexivity.
+Qed.
+
+(* the executable classifier makes the observed tool paths a function of (rule key, source key) *)
+Lemma clash_free_fun l : clash_free l = true ->
+  forall dk sk tp tp', In (dk, sk, tp) l -> In (dk, sk, tp') l -> tp = tp'.
+Proof.
+  unfold clash_free. intros H dk sk tp tp' H1 H2. rewrite forallb_forall in H. specialize (H _ H1).
+  rewrite forallb_forall in H. specialize (H _ H2). unfold turn_clash in H. cbn [fst snd] in H.
+  rewrite str_eqb_refl, skey_eqb_refl in H. cbn [andb] in H. rewrite negb_involutive in H.
+  assert (R : reflect (tp = tp') (list_eqb path_eqb tp tp')) by (apply list_eqb_spec; apply path_eqb_spec).
+  destruct R; [assumption|discriminate].
 Qed.
 
 (* the trees linked by the filegroups of a step are among history_fg_srcs *)
@@ -919,29 +1130,33 @@ Section History.
   Hypothesis good_file : forall c, good (File false c).
   Hypothesis act_good : forall t ins news, U t -> Forall good (map snd ins) ->
     result t ins = Some news -> Forall good (map snd news).
+  Variable Obs : str -> skey -> list path -> Prop.
+  Hypothesis Obs_fun : forall dk sk tp tp', Obs dk sk tp -> Obs dk sk tp' -> tp = tp'.
 
-  Let TrustU := Trust U good.
+  Let TrustU := Trust U good Obs.
+  Let obs := obs_turn Obs.
 
-  Lemma step_wf_parts c r req : step_wf_t (HBuild c r req) = true ->
+  Lemma step_wf_parts c r req : step_wf (HBuild c r req) = true ->
     WF (restrict r req) /\ distinct_srcs (restrict r req) = true
-    /\ forall t, In t (r_targets (restrict r req)) -> tool_paths (restrict r req) t = [].
+    /\ forall t, In t (r_targets (restrict r req)) -> Forall (fun p => p <> nopath) (all_paths (restrict r req) t).
   Proof.
-    cbn [step_wf_t step_wf step_tool_free]. intros H. apply andb_prop in H. destruct H as [H H3]. apply andb_prop in H. destruct H as [H1 H2].
-    split; [apply wf_repo_WF; exact H1|]. split; [exact H2|apply tool_free_paths; exact H3].
+    cbn [step_wf]. intros H. apply andb_prop in H. destruct H as [H H3]. apply andb_prop in H. destruct H as [H1 H2].
+    split; [apply wf_repo_WF; exact H1|]. split; [exact H2|apply named_srcs_spec; exact H3].
   Qed.
 
-  Lemma trust_history : forall h st, forallb step_wf_t h = true ->
+  Lemma trust_history : forall h st, forallb step_wf h = true ->
     (forall t, In t (history_targets h) -> U t) -> (forall n, In n (history_fg_srcs h) -> good n) ->
-    quiet_history h st = true -> TrustU st -> TrustU (run_history h st).
+    quiet_history h st = true -> (forall x, In x (history_turns h st) -> obs x) -> TrustU st -> TrustU (run_history h st).
   Proof.
-    induction h as [|s0 h IH]; intros st Hwf HU Hgs Hq T; [exact T|].
+    induction h as [|s0 h IH]; intros st Hwf HU Hgs Hq Hobs T; [exact T|].
     cbn [forallb] in Hwf. apply andb_prop in Hwf. destruct Hwf as [Hs Hwf].
     cbn [quiet_history] in Hq. apply andb_prop in Hq. destruct Hq as [Hq0 Hq].
     unfold run_history. cbn [fold_left]. apply IH; try assumption.
     - intros t Ht. apply HU. cbn [history_targets flat_map]. apply in_or_app. right. exact Ht.
     - intros n Hn. apply Hgs. unfold history_fg_srcs. cbn [flat_map]. apply in_or_app. right. exact Hn.
+    - intros x Hx. apply Hobs. cbn [history_turns]. apply in_or_app. right. exact Hx.
     - destruct s0 as [c r req|]; cbn [do_hstep].
-      + destruct (step_wf_parts c r req Hs) as (W & Hd & Hnt).
+      + destruct (step_wf_parts c r req Hs) as (W & Hd & Hnm).
         assert (Hsg : forall t f n, In t (r_targets (restrict r req)) -> is_filegroup t = true -> In f (outputs t) ->
                   fg_src (restrict r req) (join (t_pkg t) f) = Some n -> good n).
         { intros t f n Ht Hfg Hf Hn. apply Hgs. unfold history_fg_srcs. cbn [flat_map]. apply in_or_app. left.
@@ -949,8 +1164,10 @@ Section History.
         unfold plz_build.
         assert (HUr : forall t, In t (r_targets (restrict r req)) -> U t).
         { intros t Ht. apply HU. cbn [history_targets flat_map]. apply in_or_app. left. apply restrict_incl in Ht. exact Ht. }
+        assert (Hta : forall x, In x (turns_in c (restrict r req) (r_targets (restrict r req)) (mkRun st [] [])) -> obs x).
+        { intros x Hx. apply Hobs. cbn [history_turns]. apply in_or_app. left. exact Hx. }
         apply negb_true_iff in Hq0. unfold plz_stale in Hq0.
-        destruct (builds_agree U good U_inj good_inj good_file act_good (restrict r req) W Hd HUr Hnt Hsg c c st st T T Hq0 Hq0) as [T' _].
+        destruct (builds_agree U good U_inj good_inj good_file act_good Obs Obs_fun (restrict r req) W Hd HUr Hnm Hsg c c st st T T Hq0 Hq0 Hta) as [T' _].
         exact T'.
       + apply trust_wipe. exact T.
   Qed.
@@ -964,40 +1181,46 @@ Section History.
   Qed.
 
   (* after any history (builds with or without the cache, rm -rf plz-out) in which no target with output_dirs
-     went through stale_flow, a build - with or without the cache - agrees with a clean build without cache *)
+     went through stale_flow and whose turns are among the observed ones, a build - with or without the cache - agrees with
+     a clean build without cache *)
   Theorem incremental_is_clean c h r req :
-    forallb step_wf_t (h ++ [HBuild c r req]) = true ->
+    forallb step_wf (h ++ [HBuild c r req]) = true ->
     (forall t, In t (history_targets (h ++ [HBuild c r req])) -> U t) ->
     (forall n, In n (history_fg_srcs (h ++ [HBuild c r req])) -> good n) ->
     quiet_history (h ++ [HBuild c r req]) empty_store = true ->
+    (forall x, In x (history_turns (h ++ [HBuild c r req]) empty_store) -> obs x) ->
     let incr := plz_build c r req (run_history h empty_store) in
     let clean := plz_build false r req empty_store in
     rn_failed incr = rn_failed clean
     /\ forall t, In t (r_targets (restrict r req)) -> ~ In (t_label t) (rn_failed clean) ->
        outs_of (rn_st incr) t = outs_of (rn_st clean) t /\ all_outs_of (rn_st incr) t = all_outs_of (rn_st clean) t.
   Proof.
-    intros Hwf HU Hgs Hq. rewrite forallb_app in Hwf. apply andb_prop in Hwf. destruct Hwf as [Hwfh Hlast].
+    intros Hwf HU Hgs Hq Hobs. rewrite forallb_app in Hwf. apply andb_prop in Hwf. destruct Hwf as [Hwfh Hlast].
     cbn [forallb] in Hlast. apply andb_prop in Hlast. destruct Hlast as [Hlast _].
-    destruct (step_wf_parts c r req Hlast) as (W & Hd & Hnt).
+    destruct (step_wf_parts c r req Hlast) as (W & Hd & Hnm).
     assert (Hsg : forall t f n, In t (r_targets (restrict r req)) -> is_filegroup t = true -> In f (outputs t) ->
               fg_src (restrict r req) (join (t_pkg t) f) = Some n -> good n).
     { intros t f n Ht Hfg Hf Hn. apply Hgs. unfold history_fg_srcs. rewrite flat_map_app. apply in_or_app. right.
       cbn [flat_map]. rewrite app_nil_r. eapply fg_srcs_of_in; eassumption. }
     destruct (quiet_history_app _ _ _ Hq) as [Hqh Hql]. cbn [quiet_history] in Hql.
     apply andb_prop in Hql. destruct Hql as [Hql _]. apply negb_true_iff in Hql. unfold plz_stale in Hql.
+    rewrite history_turns_app in Hobs.
     assert (T : TrustU (run_history h empty_store)).
     { apply trust_history; try assumption.
       - intros t Ht. apply HU. unfold history_targets. rewrite flat_map_app. apply in_or_app. left. exact Ht.
       - intros n Hn. apply Hgs. unfold history_fg_srcs. rewrite flat_map_app. apply in_or_app. left. exact Hn.
+      - intros x Hx. apply Hobs. apply in_or_app. left. exact Hx.
       - apply trust_empty. }
     cbn zeta. unfold plz_build.
     assert (HUr : forall t, In t (r_targets (restrict r req)) -> U t).
     { intros t Ht. apply HU. unfold history_targets. rewrite flat_map_app. apply in_or_app. right.
       cbn [flat_map]. rewrite app_nil_r. apply restrict_incl in Ht. exact Ht. }
+    assert (Hta : forall x, In x (turns_in c (restrict r req) (r_targets (restrict r req)) (mkRun (run_history h empty_store) [] [])) -> obs x).
+    { intros x Hx. apply Hobs. apply in_or_app. right. cbn [history_turns]. apply in_or_app. left. exact Hx. }
     assert (Hqc : stale_in false (restrict r req) (r_targets (restrict r req)) (mkRun empty_store [] []) = false).
     { apply (no_meta_quiet (restrict r req) W false (r_targets (restrict r req)) []); [reflexivity|]. intros t _. reflexivity. }
-    destruct (builds_agree U good U_inj good_inj good_file act_good (restrict r req) W Hd HUr Hnt Hsg c false
-                (run_history h empty_store) empty_store T (trust_empty U good) Hql Hqc) as (_ & Hf & Ho).
+    destruct (builds_agree U good U_inj good_inj good_file act_good Obs Obs_fun (restrict r req) W Hd HUr Hnm Hsg c false
+                (run_history h empty_store) empty_store T (trust_empty U good Obs) Hql Hqc Hta) as (_ & Hf & Ho).
     split; [exact Hf|]. intros t Ht Hnf. apply Ho; [exact Ht|]. rewrite Hf. exact Hnf.
   Qed.
 End History.
@@ -1015,7 +1238,7 @@ Lemma act_files t ins news : defect_class t = None -> Forall is_file (map snd in
 Proof.
   unfold defect_class. intros Hc _. destruct (t_kind t) as [c| |content]; cbn [act].
   - destruct c.
-    + destruct (outputs t) as [|o rest]; [discriminate|]. destruct (all_files ins) as [x|]; [|discriminate].
+    + destruct (outputs t) as [|o rest]; [discriminate|]. destruct (all_files (src_ins ins)) as [x|]; [|discriminate].
       intros H. injection H as <-. cbn [map snd]. constructor; [eexists; reflexivity|].
       rewrite map_map. cbn [snd]. apply Forall_forall. intros n Hn. apply in_map_iff in Hn. destruct Hn as [o' [<- _]]. eexists; reflexivity.
     + discriminate Hc.
@@ -1094,15 +1317,43 @@ Proof.
   destruct (fg_src_shape _ _ _ E) as [[c0 ->]|[es ->]]; [exists c0; reflexivity|discriminate].
 Qed.
 
-Lemma wf_t_of h : forallb step_wf h = true -> tool_free_history h = true -> forallb step_wf_t h = true.
+(* the observed tool paths of a history: its turns *)
+Definition obs_of (h : list hstep) : str -> skey -> list path -> Prop :=
+  fun dk sk tp => In (dk, sk, tp) (history_turns h empty_store).
+
+Lemma obs_of_fun h : tool_rename_free h = true ->
+  forall dk sk tp tp', obs_of h dk sk tp -> obs_of h dk sk tp' -> tp = tp'.
+Proof. unfold tool_rename_free, obs_of. intros H. apply clash_free_fun. exact H. Qed.
+
+Lemma obs_of_turns h : forall x, In x (history_turns h empty_store) -> obs_turn (obs_of h) x.
+Proof. intros [[dk sk] tp] Hx. unfold obs_turn, obs_of. cbn [fst snd]. exact Hx. Qed.
+
+(* the general form: any class of trees on which the path-hash stream is injective (path_inj), any set of targets on which
+   the rule key is injective; tools included, up to the executable classifier tool_rename_free *)
+Theorem incremental_is_clean_tools (U : target -> Prop) (good : node -> Prop) :
+  (forall t t', U t -> U t' -> t_defkey t = t_defkey t' -> t = t') ->
+  (forall a b, good a -> good b -> stream a = stream b -> a = b) ->
+  (forall c, good (File false c)) ->
+  (forall t ins news, U t -> Forall good (map snd ins) -> result t ins = Some news -> Forall good (map snd news)) ->
+  forall c h r req,
+    forallb step_wf (h ++ [HBuild c r req]) = true ->
+    tool_rename_free (h ++ [HBuild c r req]) = true ->
+    (forall t, In t (history_targets (h ++ [HBuild c r req])) -> U t) ->
+    (forall n, In n (history_fg_srcs (h ++ [HBuild c r req])) -> good n) ->
+    quiet_history (h ++ [HBuild c r req]) empty_store = true ->
+    let incr := plz_build c r req (run_history h empty_store) in
+    let clean := plz_build false r req empty_store in
+    rn_failed incr = rn_failed clean
+    /\ forall t, In t (r_targets (restrict r req)) -> ~ In (t_label t) (rn_failed clean) ->
+       outs_of (rn_st incr) t = outs_of (rn_st clean) t /\ all_outs_of (rn_st incr) t = all_outs_of (rn_st clean) t.
 Proof.
-  unfold tool_free_history. induction h as [|s0 h IH]; cbn [forallb]; [reflexivity|]. intros H1 H2.
-  apply andb_prop in H1. apply andb_prop in H2. destruct H1 as [A1 B1], H2 as [A2 B2].
-  unfold step_wf_t at 1. rewrite A1, A2, (IH B1 B2). reflexivity.
+  intros H1 H2 H3 H4 c h r req Hwf Hrf HU Hgs Hq.
+  exact (incremental_is_clean U good H1 H2 H3 H4 (obs_of (h ++ [HBuild c r req])) (obs_of_fun _ Hrf) c h r req Hwf HU Hgs Hq
+           (obs_of_turns _)).
 Qed.
 
 Theorem incremental_is_clean_files c h r req :
-  wf_history (h ++ [HBuild c r req]) -> tool_free_history (h ++ [HBuild c r req]) = true ->
+  wf_history (h ++ [HBuild c r req]) -> tool_rename_free (h ++ [HBuild c r req]) = true ->
   dir_free (h ++ [HBuild c r req]) ->
   fg_dir_free (h ++ [HBuild c r req]) = true ->
   quiet_history (h ++ [HBuild c r req]) empty_store = true ->
@@ -1113,14 +1364,14 @@ Theorem incremental_is_clean_files c h r req :
   /\ forall t, In t (r_targets (restrict r req)) -> ~ In (t_label t) (rn_failed clean) ->
      outs_of (rn_st incr) t = outs_of (rn_st clean) t /\ all_outs_of (rn_st incr) t = all_outs_of (rn_st clean) t.
 Proof.
-  intros [Hwf Hkeys] Htf Hdf Hfd Hq. pose proof (wf_t_of _ Hwf Htf) as Hwft.
+  intros [Hwf Hkeys] Hrf Hdf Hfd Hq.
   set (U := fun t => In t (history_targets (h ++ [HBuild c r req]))).
   assert (H1 : forall t t', U t -> U t' -> t_defkey t = t_defkey t' -> t = t') by (intros t t' Ht Ht'; apply Hkeys; assumption).
   assert (H2 : forall c, is_file (File false c)) by (intros c0; exists c0; reflexivity).
   assert (H3 : forall t ins news, U t -> Forall is_file (map snd ins) ->
              result t ins = Some news -> Forall is_file (map snd news))
     by (intros t ins news Ut; apply result_files; apply Hdf; exact Ut).
-  destruct (incremental_is_clean U is_file H1 is_file_inj H2 H3 c h r req Hwft (fun t Ht => Ht) (fg_dir_free_files _ Hfd) Hq) as [Hf Ho].
+  destruct (incremental_is_clean_tools U is_file H1 is_file_inj H2 H3 c h r req Hwf Hrf (fun t Ht => Ht) (fg_dir_free_files _ Hfd) Hq) as [Hf Ho].
   cbn zeta in *. split; [unfold run_ok; rewrite Hf; reflexivity|]. split; [exact Hf|exact Ho].
 Qed.
 
